@@ -330,14 +330,7 @@ func opName(op token.Token) string {
 }
 
 func (g *FnGen) concat(i *ssa.BinOp, x, y Val) {
-	r := g.unknown(i)
-	g.assume(fmt.Sprintf("(= (slen %s) %s)", r.T, g.add("(slen "+x.T+")", "(slen "+y.T+")")))
-	k := "cc!k"
-	idx := g.idx()
-	g.assume(fmt.Sprintf("(forall ((%s %s)) (! (=> (and %s %s) (= (sat %s %s) (sat %s %s))) :pattern ((sat %s %s))))",
-		k, idx, g.sle(g.ilit64(0), k), g.slt(k, "(slen "+x.T+")"), r.T, k, x.T, k, r.T, k))
-	g.assume(fmt.Sprintf("(forall ((%s %s)) (! (=> (and %s %s) (= (sat %s %s) (sat %s %s))) :pattern ((sat %s %s))))",
-		k, idx, g.sle("(slen "+x.T+")", k), g.slt(k, "(slen "+r.T+")"), r.T, k, y.T, g.sub(k, "(slen "+x.T+")"), r.T, k))
+	g.define(i, fmt.Sprintf("(str-cat %s %s)", x.T, y.T), "Str")
 }
 
 func (g *FnGen) unop(i *ssa.UnOp) {
@@ -605,11 +598,7 @@ func (g *FnGen) sliceInstr(i *ssa.Slice) {
 			hi = g.toIdx(g.val(i.High))
 		}
 		g.safety("slice", fmt.Sprintf("(and %s %s %s)", g.sle(z, lo), g.sle(lo, hi), g.sle(hi, "(slen "+x.T+")")), "string slice bounds in range", i.Pos())
-		r := g.unknown(i)
-		g.assume(fmt.Sprintf("(= (slen %s) %s)", r.T, g.sub(hi, lo)))
-		k := "sl!k"
-		g.assume(fmt.Sprintf("(forall ((%s %s)) (! (=> (and %s %s) (= (sat %s %s) (sat %s %s))) :pattern ((sat %s %s))))",
-			k, g.idx(), g.sle(z, k), g.slt(k, g.sub(hi, lo)), r.T, k, x.T, g.add(k, lo), r.T, k))
+		g.define(i, fmt.Sprintf("(str-sub %s %s %s)", x.T, lo, hi), "Str")
 	case *types.Pointer: // *array
 		arr := u.Elem().Underlying().(*types.Array)
 		n := g.ilit64(arr.Len())
